@@ -196,7 +196,7 @@ theorem slot_fetched_before_the_lock_sees_aborted_changes :
 
 end slotlock
 
-/-! ### what another transaction reads can no longer be lost (model M11) -/
+/-! ### what another transaction reads can no longer be lost (model M14) -/
 section reveal
 open GoNfsd.Model.Reveal
 
